@@ -18,6 +18,8 @@ OPTIONS = [
     # the same file by its absolute path, and a probe outside the project origin (another watched directory): explicit files apply globally
     ("ignore-file-abs", ["--ignore-file", "@PROJ@/extra.ign"], {"OUT/from_explicit_file": False}),
     ("ignore", ["--ignore", "from_cli_ignore"], {"from_cli_ignore": False}),
+    # a negated --ignore pattern re-includes what a built-in default ignores (explicit patterns come after the defaults)
+    ("ignore-neg", ["--ignore", "!keep.pyc"], {"keep.pyc": True}),
     ("filter", ["--filter", "*.keep"], {"a.keep": True}),
     ("filter-file", ["--filter-file", "filters.txt"], {"b.keep": True}),
     ("exts", ["--exts", "ext1"], {"c.ext1": True}),
@@ -50,7 +52,7 @@ class C12(Prop):
         for bits in range(64):
             fl = [FLAGS[i] for i in range(6) if bits >> i & 1]
             for name, args, extra in OPTIONS:
-                probes = list(SRC) + ["x.pyc", "plain.txt"] + list(extra)
+                probes = list(SRC) + ["x.pyc", ".git/HEAD", "sub/.hg/dirstate", "plain.txt"] + list(extra)
                 cases.append({"bits": bits, "opt": name, "args": fl + args, "probes": probes, "extra": extra, "layout": "git"})
             # a project without any VCS metadata directory that still has VCS ignore files
             for name, args, extra in OPTIONS[:2]:
@@ -94,7 +96,7 @@ class C12(Prop):
                     exp[p] = case["extra"][p]
                 elif p in srcs:
                     exp[p] = (srcs[p] not in sel_ids) and not filtered
-                elif name == "x.pyc":
+                elif name in ("x.pyc", ".git/HEAD", "sub/.hg/dirstate"):      # ignored by the built-in defaults, and by nothing else
                     exp[p] = (dflag == "F") and not filtered
                 else:
                     exp[p] = not filtered
@@ -140,8 +142,10 @@ class C12(Prop):
                     if v[p] != want:
                         c.failing.append({"case": {"layout": layout, "flags": [FLAGS[i] for i in range(6) if bits >> i & 1]}, "impl": {p: v[p]}, "expected": want,
                                           "clause": "C12_flag_exact: a flag removed a source it does not name, or kept one it names"})
-                if v["x.pyc"] != (True if n_def else False):
-                    c.failing.append({"case": bits, "impl": v["x.pyc"], "clause": "C12_default_ignores_exact"})
+                for dp in ("x.pyc", ".git/HEAD", "sub/.hg/dirstate"):
+                    if dp in v and v[dp] != (True if n_def else False):
+                        c.failing.append({"case": {"layout": layout, "flags": [FLAGS[i] for i in range(6) if bits >> i & 1]}, "impl": {dp: v[dp]},
+                                          "clause": "C12_default_ignores_exact: the built-in defaults are removed by --no-default-ignore / --ignore-nothing and by nothing else"})
         return c
 
 
